@@ -174,6 +174,7 @@ pub fn flavor_for(prop: &str) -> Flavor {
             f.two_phase_ro = true;
             f.status_pokes = true;
             f.fat_w = [3, 3, 4];
+            f.refgen_pct = 35;
         }
         "C18" => {
             f.prop = "C18";
@@ -198,7 +199,13 @@ pub fn draw_cfg(r: &mut Rng, fl: &Flavor) -> RunCfg {
     if fl.refgen_pct > 0 && r.below(100) < u64::from(fl.refgen_pct) {
         // builder-made volume (declined geometries fall back to a library-formatted one)
         for _ in 0..4 {
-            let c = crate::c08::draw_refgen_cfg(r, fl.oracles.clone(), fl.benign);
+            let mut c = crate::c08::draw_refgen_cfg(r, fl.oracles.clone(), fl.benign);
+            if fl.two_phase_ro {
+                c.ro_skip_sessions = 1;
+            }
+            if fl.oracles.read_only {
+                c.access_date = false;
+            }
             if let VolSource::Refgen(s) = c.vol.source {
                 if crate::refgen::build(&c.vol, s).is_ok() {
                     return c;
@@ -314,6 +321,8 @@ pub fn engine_outcome(seed: u64, fl: &Flavor) -> RunOutcome {
 pub fn engine_batches(prop: &'static str, tier: &str, seed: u64) -> Vec<Batch<'static>> {
     let fl = flavor_for(prop);
     let (n_plain, n_benign) = match (prop, tier) {
+        ("C01", "quick") => (25_000u64, 10_000u64),
+        ("C05", "quick") => (28_000u64, 10_000u64),
         (_, "quick") => (40_000u64, 15_000u64),
         _ => (1_500_000, 500_000),
     };
